@@ -410,7 +410,7 @@ pub fn run(seed: u64, ntraces: usize) {
                 }
                 9 => { // setFlowLimits
                     if g.toks.is_empty() { continue; }
-                    let caller = if r.chance(3, 4) { g.operator.clone() } else { anyone.clone() };
+                    let caller = match r.below(8) { 0 => anyone.clone(), 1 => g.owner.clone(), _ => g.operator.clone() };      // the owner holds no operator role
                     let tid = g.toks[r.below(g.toks.len() as u64) as usize].id.clone(); let l = match r.below(3) { 0 => 0, _ => 5 + r.below(40) };
                     match r.below(6) {
                         0 => { // two ids (the second possibly unknown): all or nothing
@@ -468,7 +468,7 @@ pub fn run(seed: u64, ntraces: usize) {
                     let dtok = if r.chance(1, 8) { vec![] } else { b"0xremote-token".to_vec() }; let gasv = r.below(3) * 333;
                     g.its_tx("linkToken", &deployer, "linkToken", vec![salt.clone(), dchain.clone(), dtok.clone(), if ty == 0 { vec![] } else { vec![ty] }, b"params".to_vec()], gasv, &[],
                         json!({"salt": hx(&salt), "dchain": hx(&dchain), "dtoken": hx(&dtok), "ty": ty, "params": hx(b"params")})); }
-                18 => { let caller = if r.chance(1, 2) { g.operator.clone() } else { anyone.clone() }; let na = r.pick(&g.users).clone();
+                18 => { let caller = match r.below(6) { 0 => g.owner.clone(), 1 | 2 => anyone.clone(), _ => g.operator.clone() }; let na = r.pick(&g.users).clone();
                     match r.below(4) {
                         0 | 1 => { let (ok, _, _) = g.its_tx("transferOp", &caller, "transferOperatorship", vec![na.to_vec()], 0, &[], json!({"a": hx(na.as_bytes())})); if ok { g.operator = na; } }
                         2 => { let (ok, _, _) = g.its_tx("proposeOp", &caller, "proposeOperatorship", vec![na.to_vec()], 0, &[], json!({"a": hx(na.as_bytes())}));
